@@ -6,20 +6,20 @@ completion leave the same records; forgetting a component of the algorithm state
 import Strengths.Proofs.Lifecycle
 
 namespace Strengths
-namespace Sim
+namespace SimSt
 variable {σ ω : Type} (A : Algo σ ω) (cfg : SamplerCfg)
 
-theorem Same.symm {s s' : Sim σ ω} (h : Same s s') : Same s' s :=
+theorem Same.symm {s s' : SimSt σ ω} (h : Same s s') : Same s' s :=
   ⟨h.1.symm, h.2.1.symm, h.2.2.1.symm, h.2.2.2.1.symm, h.2.2.2.2.1.symm, h.2.2.2.2.2.symm⟩
 
-theorem Same.trans {s s' s'' : Sim σ ω} (h : Same s s') (h' : Same s' s'') : Same s s'' :=
+theorem Same.trans {s s' s'' : SimSt σ ω} (h : Same s s') (h' : Same s' s'') : Same s s'' :=
   ⟨h.1.trans h'.1, h.2.1.trans h'.2.1, h.2.2.1.trans h'.2.2.1, h.2.2.2.1.trans h'.2.2.2.1,
     h.2.2.2.2.1.trans h'.2.2.2.2.1, h.2.2.2.2.2.trans h'.2.2.2.2.2⟩
 
-theorem next_congr (s s' : Sim σ ω) (h : Same s s') : next A cfg s = next A cfg s' := by
+theorem next_congr (s s' : SimSt σ ω) (h : Same s s') : next A cfg s = next A cfg s' := by
   unfold next; rw [iterate_congr A cfg s s' h]
 
-theorem iter_congr (n : Nat) (s s' : Sim σ ω) (h : Same s s') : Same (iter A cfg n s) (iter A cfg n s') := by
+theorem iter_congr (n : Nat) (s s' : SimSt σ ω) (h : Same s s') : Same (iter A cfg n s) (iter A cfg n s') := by
   cases n with
   | zero => exact h
   | succ n => simp only [iter]; rw [next_congr A cfg s s' h]; exact Same.refl _
@@ -37,24 +37,24 @@ def Drive.count : Drive → Nat
   | .iterateN n => n
   | .run k => k + 1
 
-def applyDrive (d : Drive) (s : Sim σ ω) : Sim σ ω :=
+def applyDrive (d : Drive) (s : SimSt σ ω) : SimSt σ ω :=
   match d with
   | .iterate => next A cfg s
   | .iterateN n => (iterateN A cfg n s).1
   | .run k => (run A cfg k s).1
 
-def applySchedule : List Drive → Sim σ ω → Sim σ ω
+def applySchedule : List Drive → SimSt σ ω → SimSt σ ω
   | [], s => s
   | d :: rest, s => applySchedule rest (applyDrive A cfg d s)
 
-theorem applyDrive_same (d : Drive) (s : Sim σ ω) : Same (applyDrive A cfg d s) (iter A cfg d.count s) := by
+theorem applyDrive_same (d : Drive) (s : SimSt σ ω) : Same (applyDrive A cfg d s) (iter A cfg d.count s) := by
   cases d with
   | iterate => exact Same.refl _
   | iterateN n => exact iterateN_state A cfg n s
   | run k => exact (run_eq_iterateN A cfg k s).1.trans (iterateN_state A cfg (k + 1) s)
 
 /-- a schedule is, up to the per-iteration flag, `Iterate()` applied (sum of the counts) times -/
-theorem applySchedule_same (l : List Drive) (s : Sim σ ω) :
+theorem applySchedule_same (l : List Drive) (s : SimSt σ ω) :
     Same (applySchedule A cfg l s) (iter A cfg (l.map Drive.count).sum s) := by
   induction l generalizing s with
   | nil => exact Same.refl _
@@ -64,7 +64,7 @@ theorem applySchedule_same (l : List Drive) (s : Sim σ ω) :
     exact (ih _).trans (iter_congr A cfg _ _ _ (applyDrive_same A cfg d s))
 
 /-- two iteration counts that both reach completion give the same records, clock and state -/
-theorem iter_complete_unique (s : Sim σ ω) (a b : Nat) (ha : (iter A cfg a s).complete = true) (hb : (iter A cfg b s).complete = true) :
+theorem iter_complete_unique (s : SimSt σ ω) (a b : Nat) (ha : (iter A cfg a s).complete = true) (hb : (iter A cfg b s).complete = true) :
     (iter A cfg a s).recs = (iter A cfg b s).recs ∧ (iter A cfg a s).t = (iter A cfg b s).t ∧ (iter A cfg a s).x = (iter A cfg b s).x := by
   have key : ∀ a b : Nat, a ≤ b → (iter A cfg a s).complete = true →
       (iter A cfg a s).recs = (iter A cfg b s).recs ∧ (iter A cfg a s).t = (iter A cfg b s).t ∧ (iter A cfg a s).x = (iter A cfg b s).x := by
@@ -81,7 +81,7 @@ theorem iter_complete_unique (s : Sim σ ω) (a b : Nat) (ha : (iter A cfg a s).
 /-! ### forgetting part of the algorithm state -/
 
 /-- image of the members under a map of the algorithm state -/
-def mapX {σ' : Type} (f : σ → σ') (s : Sim σ ω) : Sim σ' ω :=
+def mapX {σ' : Type} (f : σ → σ') (s : SimSt σ ω) : SimSt σ' ω :=
   { x := f s.x, t := s.t, samplePos := s.samplePos, lastTsi := s.lastTsi, done := s.done, complete := s.complete, recs := s.recs }
 
 variable {σ' : Type} (A' : Algo σ' ω) (f : σ → σ')
@@ -90,16 +90,16 @@ variable {σ' : Type} (A' : Algo σ' ω) (f : σ → σ')
 def Commutes : Prop :=
   (∀ x, A.obs x = A'.obs (f x)) ∧ (∀ x, A'.step (f x) = (A.step x).map fun p => (f p.1, p.2))
 
-theorem mapX_sample (hc : Commutes A A' f) (s : Sim σ ω) : mapX f (s.sample A) = (mapX f s).sample A' := by
+theorem mapX_sample (hc : Commutes A A' f) (s : SimSt σ ω) : mapX f (s.sample A) = (mapX f s).sample A' := by
   unfold sample mapX
   by_cases h : s.done = true
   · simp [h]
   · simp [h, hc.1 s.x]
 
-theorem mapX_setPos (s : Sim σ ω) (p : Nat) : mapX f { s with samplePos := p } = { (mapX f s) with samplePos := p } := rfl
-theorem mapX_setTsi (s : Sim σ ω) (r : Tsi) : mapX f { s with lastTsi := r } = { (mapX f s) with lastTsi := r } := rfl
+theorem mapX_setPos (s : SimSt σ ω) (p : Nat) : mapX f { s with samplePos := p } = { (mapX f s) with samplePos := p } := rfl
+theorem mapX_setTsi (s : SimSt σ ω) (r : Tsi) : mapX f { s with lastTsi := r } = { (mapX f s) with lastTsi := r } := rfl
 
-theorem mapX_tsLoop (hc : Commutes A A' f) (l : List Rat) (s : Sim σ ω) : mapX f (tsLoop A s l) = tsLoop A' (mapX f s) l := by
+theorem mapX_tsLoop (hc : Commutes A A' f) (l : List Rat) (s : SimSt σ ω) : mapX f (tsLoop A s l) = tsLoop A' (mapX f s) l := by
   induction l generalizing s with
   | nil => rfl
   | cons τ rest ih =>
@@ -111,7 +111,7 @@ theorem mapX_tsLoop (hc : Commutes A A' f) (l : List Rat) (s : Sim σ ω) : mapX
     · rw [if_pos h, if_pos h, ih, mapX_setPos, mapX_sample A A' f hc]
     · rw [if_neg h, if_neg h]
 
-theorem mapX_samplingStep (hc : Commutes A A' f) (s : Sim σ ω) : mapX f (samplingStep A cfg s) = samplingStep A' cfg (mapX f s) := by
+theorem mapX_samplingStep (hc : Commutes A A' f) (s : SimSt σ ω) : mapX f (samplingStep A cfg s) = samplingStep A' cfg (mapX f s) := by
   unfold samplingStep
   generalize cfg.policy = p
   match p with
@@ -128,13 +128,13 @@ theorem mapX_samplingStep (hc : Commutes A A' f) (s : Sim σ ω) : mapX f (sampl
     · rw [if_neg h, if_neg h]
   | _ + 3 => rfl
 
-theorem mapX_checkTMax (s : Sim σ ω) : mapX f (checkTMax cfg s) = checkTMax cfg (mapX f s) := by
+theorem mapX_checkTMax (s : SimSt σ ω) : mapX f (checkTMax cfg s) = checkTMax cfg (mapX f s) := by
   unfold checkTMax
   have ht : (mapX f s).t = s.t := rfl
   rw [ht]
   split <;> rfl
 
-theorem mapX_iterate (hc : Commutes A A' f) (s : Sim σ ω) :
+theorem mapX_iterate (hc : Commutes A A' f) (s : SimSt σ ω) :
     mapX f (iterate A cfg s).1 = (iterate A' cfg (mapX f s)).1 ∧ (iterate A cfg s).2 = (iterate A' cfg (mapX f s)).2 := by
   by_cases h : s.complete = true
   · have h' : (mapX f s).complete = true := h
@@ -155,11 +155,11 @@ theorem mapX_iterate (hc : Commutes A A' f) (s : Sim σ ω) :
           checkTMax cfg (samplingStep A' cfg (advanced (mapX f s) (f x') dt)) := by
         rw [mapX_checkTMax, mapX_samplingStep A cfg A' f hc]; rfl
       refine ⟨e, ?_⟩
-      have := congrArg Sim.complete e
+      have := congrArg SimSt.complete e
       show (!_) = (!_)
       rw [← this]; rfl
 
-theorem mapX_iter (hc : Commutes A A' f) (n : Nat) (s : Sim σ ω) : mapX f (iter A cfg n s) = iter A' cfg n (mapX f s) := by
+theorem mapX_iter (hc : Commutes A A' f) (n : Nat) (s : SimSt σ ω) : mapX f (iter A cfg n s) = iter A' cfg n (mapX f s) := by
   induction n generalizing s with
   | zero => rfl
   | succ n ih =>
@@ -172,5 +172,5 @@ theorem mapX_init (hc : Commutes A A' f) (x0 : σ) : mapX f (init A cfg x0) = in
   unfold init
   rw [mapX_samplingStep A cfg A' f hc]; rfl
 
-end Sim
+end SimSt
 end Strengths
